@@ -1,6 +1,17 @@
 //! C08: rejected transactions leave no trace.  Columns of every kind; transactions with
 //! one invalid operation at a random position among valid ones; full observable snapshot
 //! before / after the rejected call, after drain and after reopen.
+//!
+//! Content oracle (`Content`): a plain map per column of what the ACCEPTED commits produce (values,
+//! reference counts, tree roots with their fan-out, entry counts), written independently of the
+//! crate; every drained state and every reopened state is compared with it line by line
+//! (`observe` / `Content::expected`), so that something queued but invisible, or something of a
+//! rejected transaction that only shows up after the drain, is noticed.
+//!
+//! Scenario F43 (hook `commit_changes.after_validate`): the root of a DereferenceTree is read
+//! twice, by `validate_change` and again by the assembly loop; a queued DereferenceTree of the same
+//! root that the log worker processes in between makes the second read fail AFTER earlier
+//! operations of the transaction have claimed their slots.
 use crate::util::*;
 use parity_db::{ColumnOptions, Db, NewNode, NodeRef, Operation, Options};
 use std::collections::BTreeMap;
@@ -12,26 +23,31 @@ struct Col {
 	multitree: bool,
 	rc: bool,
 	append_only: bool,
+	/// `preimage` without `ref_counted` (ref_counted columns always have it)
+	preimage: bool,
 }
 
-const COLS: [Col; 8] = [
-	Col { btree: false, multitree: false, rc: false, append_only: false },
-	Col { btree: false, multitree: false, rc: true, append_only: false },
-	Col { btree: true, multitree: false, rc: false, append_only: false },
-	Col { btree: false, multitree: true, rc: true, append_only: false },
-	Col { btree: false, multitree: true, rc: false, append_only: true },
-	Col { btree: false, multitree: true, rc: false, append_only: false },
+const COLS: [Col; 10] = [
+	Col { btree: false, multitree: false, rc: false, append_only: false, preimage: false },
+	Col { btree: false, multitree: false, rc: true, append_only: false, preimage: false },
+	Col { btree: true, multitree: false, rc: false, append_only: false, preimage: false },
+	Col { btree: false, multitree: true, rc: true, append_only: false, preimage: false },
+	Col { btree: false, multitree: true, rc: false, append_only: true, preimage: false },
+	Col { btree: false, multitree: true, rc: false, append_only: false, preimage: false },
 	// btree-indexed column that also carries the multitree flag: takes the btree path
-	Col { btree: true, multitree: true, rc: false, append_only: false },
+	Col { btree: true, multitree: true, rc: false, append_only: false, preimage: false },
 	// plain hash column with append_only (never ref_counted)
-	Col { btree: false, multitree: false, rc: false, append_only: true },
+	Col { btree: false, multitree: false, rc: false, append_only: true, preimage: false },
+	// preimage columns WITHOUT reference counting (hash, btree): Reference is invalid there too
+	Col { btree: false, multitree: false, rc: false, append_only: false, preimage: true },
+	Col { btree: true, multitree: false, rc: false, append_only: false, preimage: true },
 ];
 
 fn options(path: &Path) -> Options {
 	let mut o = Options::with_columns(path, COLS.len() as u8);
 	for (i, c) in COLS.iter().enumerate() {
 		o.columns[i] = ColumnOptions {
-			preimage: c.rc,
+			preimage: c.rc || c.preimage,
 			uniform: false,
 			ref_counted: c.rc,
 			compression: parity_db::CompressionType::NoCompression,
@@ -147,6 +163,181 @@ fn snapshot(db: &Db, nkeys: u64) -> Vec<String> {
 	out
 }
 
+/// What the accepted commits produce, column by column (plain maps; not derived from the model).
+#[derive(Clone, Default)]
+struct Content {
+	/// key-value columns: key -> (value, reference count); the count is 1 on columns without counting
+	kv: Vec<BTreeMap<Vec<u8>, (Vec<u8>, u64)>>,
+	/// tree columns: root key -> (count, fan-out of the root = number of leaf nodes)
+	trees: Vec<BTreeMap<Vec<u8>, (u64, usize)>>,
+}
+
+impl Content {
+	fn new() -> Content {
+		Content { kv: vec![Default::default(); COLS.len()], trees: vec![Default::default(); COLS.len()] }
+	}
+	/// the operations of an accepted transaction, in order
+	fn apply(&mut self, tx: &[(u8, Op)]) {
+		for (ci, op) in tx {
+			let ci = *ci as usize;
+			let c = &COLS[ci];
+			match op {
+				Op::Set(k, v) =>
+					if c.rc {
+						let e = self.kv[ci].entry(k.clone()).or_insert((v.clone(), 0));
+						e.1 += 1;
+					} else {
+						self.kv[ci].insert(k.clone(), (v.clone(), 1));
+					},
+				Op::Del(k) =>
+					if c.rc {
+						let gone = match self.kv[ci].get_mut(k) {
+							Some(e) => {
+								e.1 -= 1;
+								e.1 == 0
+							},
+							None => false,
+						};
+						if gone {
+							self.kv[ci].remove(k);
+						}
+					} else {
+						self.kv[ci].remove(k);
+					},
+				Op::Ref(k) =>
+					if let Some(e) = self.kv[ci].get_mut(k) {
+						e.1 += 1;
+					},
+				Op::InsTree(k, f) => {
+					self.trees[ci].entry(k.clone()).or_insert((1, *f));
+				},
+				Op::RefTree(k) =>
+					if !c.append_only {
+						if let Some(e) = self.trees[ci].get_mut(k) {
+							e.0 += 1;
+						}
+					},
+				Op::DerefTree(k) => {
+					let gone = match self.trees[ci].get_mut(k) {
+						Some(e) => {
+							e.0 -= 1;
+							e.0 == 0
+						},
+						None => false,
+					};
+					if gone {
+						self.trees[ci].remove(k);
+					}
+				},
+			}
+		}
+	}
+	/// the canonical lines `observe` must produce on a drained database
+	fn expected(&self, nkeys: u64) -> Vec<String> {
+		let mut out = vec![];
+		for (ci, c) in COLS.iter().enumerate() {
+			if c.multitree && !c.btree {
+				for i in 0..nkeys {
+					let k = key(i);
+					match self.trees[ci].get(&k) {
+						Some((_, f)) => out.push(format!("{}:root:{}=some {} children={}", ci, i, hex(&val_for(&k)), f)),
+						None => out.push(format!("{}:root:{}=none", ci, i)),
+					}
+				}
+				let entries: usize = self.trees[ci].values().map(|(_, f)| 1 + f).sum();
+				out.push(format!("{}:entries={}", ci, entries));
+			} else {
+				// `get` is refused on a column that carries the multitree flag (also when it is a
+				// btree column): such a column is observed through its iterator only
+				if !c.multitree {
+					for i in 0..nkeys {
+						let k = key(i);
+						match self.kv[ci].get(&k) {
+							Some((v, _)) => out.push(format!("{}:get:{}=some {} size={}", ci, i, hex(v), v.len())),
+							None => out.push(format!("{}:get:{}=none", ci, i)),
+						}
+					}
+				}
+				if c.btree {
+					for (k, (v, _)) in &self.kv[ci] {
+						out.push(format!("{}:iter:{}={}", ci, hex(k), hex(v)));
+					}
+				}
+				// (the entry count of a hash column without the multitree flag is not available)
+			}
+		}
+		out
+	}
+}
+
+/// The content of a drained database in the format of `Content::expected` (no addresses).
+fn observe(db: &Db, nkeys: u64) -> Vec<String> {
+	let mut out = vec![];
+	for (ci, c) in COLS.iter().enumerate() {
+		let col = ci as u8;
+		if c.multitree && !c.btree {
+			for i in 0..nkeys {
+				let k = key(i);
+				match db.get_root(col, &k) {
+					Ok(Some((d, ch))) => {
+						// every child must be a readable leaf
+						let leaves_ok = ch.iter().all(|a| matches!(db.get_node(col, *a), Ok(Some((_, cc))) if cc.is_empty()));
+						out.push(format!("{}:root:{}=some {} children={}{}", ci, i, hex(&d), ch.len(), if leaves_ok { "" } else { " UNREADABLE-CHILD" }))
+					},
+					Ok(None) => out.push(format!("{}:root:{}=none", ci, i)),
+					Err(e) => out.push(format!("{}:root:{}=err:{}", ci, i, err_kind(&e))),
+				}
+			}
+			out.push(match db.get_num_column_value_entries(col) {
+				Ok(n) => format!("{}:entries={}", ci, n),
+				Err(e) => format!("{}:entries=err:{}", ci, err_kind(&e)),
+			});
+		} else {
+			if !c.multitree {
+				for i in 0..nkeys {
+					let k = key(i);
+					match (db.get(col, &k), db.get_size(col, &k)) {
+						(Ok(Some(v)), Ok(Some(sz))) => out.push(format!("{}:get:{}=some {} size={}", ci, i, hex(&v), sz)),
+						(Ok(None), Ok(None)) => out.push(format!("{}:get:{}=none", ci, i)),
+						(a, b) => out.push(format!("{}:get:{}=inconsistent get={:?} size={:?}", ci, i, a.map_err(|e| err_kind(&e)), b.map_err(|e| err_kind(&e)))),
+					}
+				}
+			}
+			if c.btree {
+				let mut it = db.iter(col).unwrap();
+				it.seek_to_first().unwrap();
+				let mut n = 0;
+				while let Ok(Some((k, v))) = it.next() {
+					out.push(format!("{}:iter:{}={}", ci, hex(&k), hex(&v)));
+					n += 1;
+					if n > 1000 {
+						break
+					}
+				}
+			}
+		}
+	}
+	out
+}
+
+/// first differences between the observed and the expected content
+fn content_diff(obs: &[String], exp: &[String]) -> Option<String> {
+	if obs == exp {
+		return None
+	}
+	let mut d = vec![];
+	for i in 0..std::cmp::max(obs.len(), exp.len()) {
+		let (a, b) = (obs.get(i), exp.get(i));
+		if a != b {
+			d.push(format!("observed {:?} expected {:?}", a, b));
+			if d.len() >= 3 {
+				break
+			}
+		}
+	}
+	Some(d.join("; "))
+}
+
 fn drain(db: &Db, commits: usize) {
 	for _ in 0..commits + 2 {
 		db.process_commits().unwrap();
@@ -170,6 +361,8 @@ pub fn run(seeds: &[u64], _thorough: bool, root: &Path, t: &mut Trace, ctr: &mut
 		let mut ok = true;
 		// logical mirror of what exists (for root_exists and for the expected final state)
 		let mut roots: Vec<BTreeMap<Vec<u8>, u64>> = vec![Default::default(); COLS.len()];
+		// plain map of what the accepted commits produce
+		let mut content = Content::new();
 		let mut pending = 0usize;
 		let mut rejected = 0;
 		let steps = rng.range(10, 30);
@@ -301,12 +494,25 @@ pub fn run(seeds: &[u64], _thorough: bool, root: &Path, t: &mut Trace, ctr: &mut
 						drain(&db, pending);
 						pending = 0;
 						let drained = snapshot(&db, nkeys);
+						// the drained CONTENT is what the accepted commits produce, nothing else
+						if let Some(d) = content_diff(&observe(&db, nkeys), &content.expected(nkeys)) {
+							t.oracle_fail(prop, &format!("drained content differs from what the accepted commits produce: {}", d));
+							ok = false;
+						} else {
+							ctr.inc("content.checked_drained");
+						}
 						drop(db);
 						db = Db::open(&opts).unwrap();
 						let reopened = snapshot(&db, nkeys);
 						if drained != reopened {
 							t.oracle_fail(prop, "state after drain differs from state after reopen (something of the rejected transaction was persisted or lost)");
 							ok = false;
+						}
+						if let Some(d) = content_diff(&observe(&db, nkeys), &content.expected(nkeys)) {
+							t.oracle_fail(prop, &format!("reopened content differs from what the accepted commits produce: {}", d));
+							ok = false;
+						} else {
+							ctr.inc("content.checked_reopened");
 						}
 						// logical content must still be the one produced by accepted commits only
 						for (ci, c) in COLS.iter().enumerate() {
@@ -327,6 +533,7 @@ pub fn run(seeds: &[u64], _thorough: bool, root: &Path, t: &mut Trace, ctr: &mut
 				match r {
 					Ok(()) => {
 						pending += 1;
+						content.apply(&tx);
 						// apply to the logical mirror
 						for (ci, op) in tx.iter() {
 							let ci = *ci as usize;
@@ -348,6 +555,23 @@ pub fn run(seeds: &[u64], _thorough: bool, root: &Path, t: &mut Trace, ctr: &mut
 				}
 			}
 		}
+		// everything accepted so far, drained: the content oracle once more, then after a reopen
+		drain(&db, pending + 2);
+		pending = 0;
+		if let Some(d) = content_diff(&observe(&db, nkeys), &content.expected(nkeys)) {
+			t.oracle_fail(prop, &format!("final drained content differs from what the accepted commits produce: {}", d));
+			ok = false;
+		} else {
+			ctr.inc("content.checked_final");
+		}
+		drop(db);
+		db = Db::open(&opts).unwrap();
+		if let Some(d) = content_diff(&observe(&db, nkeys), &content.expected(nkeys)) {
+			t.oracle_fail(prop, &format!("final reopened content differs from what the accepted commits produce: {}", d));
+			ok = false;
+		}
+		ctr.add("content.live_kv_keys", content.kv.iter().map(|m| m.len() as u64).sum());
+		ctr.add("content.live_trees", content.trees.iter().map(|m| m.len() as u64).sum());
 		// exhaustive single-operation matrix (model tie): every column kind x operation kind
 		for (ci, c) in COLS.iter().enumerate() {
 			let k_new = key(900 + ci as u64);
@@ -437,6 +661,130 @@ pub fn run(seeds: &[u64], _thorough: bool, root: &Path, t: &mut Trace, ctr: &mut
 		// out-of-range column id
 		let r = db.commit_changes(vec![(COLS.len() as u8 + 3, Operation::Set(b"k".to_vec(), b"v".to_vec()))]);
 		t.op(&format!("c08 validate {} {} 0 0 0 0 set", COLS.len(), COLS.len() + 3), &match &r { Ok(()) => "ok".to_string(), Err(e) => format!("err:{}", err_kind(e)) });
+		// Scenario F43 (every case; last, it may leave claimed slots behind): a NON-I/O error AFTER
+		// validation.  `validate_change` reads the root of a DereferenceTree, the assembly loop of
+		// commit_changes reads it AGAIN; if the log worker processes a queued DereferenceTree of the
+		// same root in between (here: from the yield point `commit_changes.after_validate`), the
+		// second read finds nothing and the call fails with "No entry for tree root" after the
+		// InsertTree in front of it has claimed its node slots.
+		{
+			let col = 5u8; // plain multitree column
+			let (ka, kb) = (key(800), key(801));
+			let entries = |db: &Db| db.get_num_column_value_entries(col).ok();
+			drain(&db, 4);
+			let e0 = entries(&db);
+			let r0 = db.commit_changes(vec![(col, to_db(&Op::InsTree(ka.clone(), 2)))]);
+			drain(&db, 2);
+			let r1 = db.commit_changes(vec![(col, to_db(&Op::DerefTree(ka.clone())))]); // queued, not processed
+			if r0.is_err() || r1.is_err() {
+				t.oracle_fail(prop, &format!("scenario F43: set-up commits failed: {:?} {:?}", r0.as_ref().map_err(err_kind), r1.as_ref().map_err(err_kind)));
+				ok = false;
+			} else {
+				let dbp = &db as *const Db as usize;
+				let fired = std::sync::Arc::new(std::sync::atomic::AtomicBool::new(false));
+				let fired2 = fired.clone();
+				parity_db::verif::set_yield_hook(Some(std::sync::Arc::new(move |name: &'static str| {
+					if name == "commit_changes.after_validate" && !fired2.swap(true, std::sync::atomic::Ordering::SeqCst) {
+						// the log worker's turn: the queued DereferenceTree reaches the tables
+						let db: &Db = unsafe { &*(dbp as *const Db) };
+						let _ = db.process_commits();
+					}
+				})));
+				let r2 = db.commit_changes(vec![(col, to_db(&Op::InsTree(kb.clone(), 3))), (col, to_db(&Op::DerefTree(ka.clone())))]);
+				parity_db::verif::set_yield_hook(None);
+				let interleaved = fired.load(std::sync::atomic::Ordering::SeqCst);
+				drain(&db, 3);
+				let e1 = entries(&db);
+				let b_present = db.get_root(col, &kb).ok().flatten().is_some();
+				let a_present = db.get_root(col, &ka).ok().flatten().is_some();
+				t.comment(&format!(
+					"scenario F43: [InsertTree b(3 leaves), DereferenceTree a] with the queued DereferenceTree a processed between validation and assembly (interleaved={}) -> {:?}; entries {:?} -> {:?}, a present={}, b present={}",
+					interleaved,
+					r2.as_ref().map_err(err_kind),
+					e0,
+					e1,
+					a_present,
+					b_present
+				));
+				ctr.inc("scenario.f43");
+				match &r2 {
+					Ok(()) => {
+						// accepted as a whole: b inserted, the second dereference of a is a no-op
+						if !(b_present && !a_present && e1 == e0.map(|x| x + 4)) {
+							t.oracle_fail(prop, &format!("scenario F43: accepted transaction left entries {:?} -> {:?}, a present={}, b present={}", e0, e1, a_present, b_present));
+							ok = false;
+						}
+					},
+					Err(_) => {
+						// rejected: then no trace - a gone (its own commit), b absent, no slot consumed
+						if !a_present && !b_present && e1 == e0 {
+							ctr.inc("scenario.f43.no_trace");
+						} else if !a_present && !b_present && e1 == e0.map(|x| x + 3) {
+							rejected += 1;
+							ctr.inc("scenario.f43.F43");
+							t.known(
+								prop,
+								"F43",
+								&format!(
+									"REJECTED-AFTER-CLAIM: transaction [InsertTree b (3 new nodes), DereferenceTree a] returned {:?} after the queued DereferenceTree a was processed between validate_change and the assembly loop; the 3 node slots claimed for b stay allocated (entries {:?} -> {:?})",
+									r2.as_ref().map_err(err_kind),
+									e0,
+									e1
+								),
+							);
+						} else {
+							t.oracle_fail(prop, &format!("scenario F43: rejected transaction left entries {:?} -> {:?}, a present={}, b present={}", e0, e1, a_present, b_present));
+							ok = false;
+						}
+					},
+				}
+			}
+		}
+		// Scenario F44 (last: the handle is dead afterwards): the background error arrives AFTER the
+		// first test of `bg_err` in commit_changes (fix f67544a) and before the test in commit_raw
+		// (here: stored from the yield point `commit_changes.before_commit_raw`): the call returns
+		// Err(Background) with the entries of its InsertTrees claimed.  The window is the assembly
+		// loop; closing it needs the claims to be undone or the error slot to be held across the loop.
+		{
+			let col = 5u8;
+			let kc = key(810);
+			let entries = |db: &Db| db.get_num_column_value_entries(col).ok();
+			drain(&db, 4);
+			let e0 = entries(&db);
+			let dbp = &db as *const Db as usize;
+			parity_db::verif::set_yield_hook(Some(std::sync::Arc::new(move |name: &'static str| {
+				if name == "commit_changes.before_commit_raw" {
+					let db: &Db = unsafe { &*(dbp as *const Db) };
+					db.verif_store_err(Err(parity_db::Error::Io(std::io::Error::new(std::io::ErrorKind::Other, "injected by the c08 harness (F44)"))));
+				}
+			})));
+			let r = db.commit_changes(vec![(col, to_db(&Op::InsTree(kc.clone(), 2)))]);
+			parity_db::verif::set_yield_hook(None);
+			let e1 = entries(&db);
+			let present = db.get_root(col, &kc).ok().flatten().is_some();
+			t.comment(&format!("scenario F44: background error stored between the first bg_err test and commit_raw -> {:?}; entries {:?} -> {:?}, root present={}", r.as_ref().map_err(err_kind), e0, e1, present));
+			ctr.inc("scenario.f44");
+			match &r {
+				Err(e) if err_kind(e) == "Background" =>
+					if e1 == e0 && !present {
+						ctr.inc("scenario.f44.no_trace");
+					} else if e1 == e0.map(|x| x + 2) && !present {
+						ctr.inc("scenario.f44.F44");
+						t.known(
+							prop,
+							"F44",
+							&format!("REFUSED-AFTER-CLAIM: commit refused with Err(Background) by commit_raw (the error was stored while the change set was being assembled) keeps the 2 node slots its InsertTree claimed (entries {:?} -> {:?})", e0, e1),
+						);
+					} else {
+						t.oracle_fail(prop, &format!("scenario F44: refused commit left entries {:?} -> {:?}, root present={}", e0, e1, present));
+						ok = false;
+					},
+				other => {
+					t.oracle_fail(prop, &format!("scenario F44: commit with a background error stored before commit_raw returned {:?}", other.as_ref().map_err(err_kind)));
+					ok = false;
+				},
+			}
+		}
 		drop(db);
 		let _ = std::fs::remove_dir_all(&dir);
 		ctr.inc("cases");
